@@ -223,7 +223,9 @@ func (c *conn) send(ctx context.Context, msg *kmip.RequestMessage) error {
 	}
 	vp("send.load", c)
 	tx := c.tx.Load().(chan txMsg)
-	errCh := make(chan error)
+	// Buffered: the write loop must be able to report a write error even if the caller has already
+	// left through a context, otherwise it blocks forever.
+	errCh := make(chan error, 1)
 	vp("send.select", c)
 	select {
 	case tx <- txMsg{msg: msg, err: errCh}:
